@@ -8,7 +8,7 @@
    Byte contents are pseudo-random functions of Seed; every finite dimension the
    properties name (suites, lengths, privilege, lookup, KG, bit positions,
    status codes, tags, truncation lengths, algorithm triples) is enumerated. *)
-EXTENDS Crypto, Json, TLC, FiniteSets
+EXTENDS Crypto, Json, TLC, FiniteSets, LifecycleOps
 
 CONSTANTS Seed, Family, Tier
 
@@ -260,6 +260,21 @@ LifecycleSet ==
                 Life(Scn(12000 + q, s[1], s[2], 1, 5, 9, (q % 2) = 0, 4, TRUE), 500 + q, 1, n, FALSE, 1), [mut |-> "none"])
        : q \in 1..cnt }
 
+\* every behaviour of Lifecycle.tla of a given length (LifecycleOps!Paths), instead of a pseudo-random choice of operations
+RECURSIVE LifeSeq(_, _, _, _, _)
+LifeSeq(S, k, ops, i, j) ==
+  IF i > Len(ops) THEN << [k |-> "call", api |-> "ConnClose", label |-> "connclose"] >>
+  ELSE LET op == ops[i]
+           j2 == IF op = "openOK" THEN 1 ELSE IF op \in {"cmd", "cmdLost", "closeOK", "closeErr", "closeLost"} THEN j + 1 ELSE j
+       IN DialOps(k, i) \o OpSteps(S, op, j) \o LifeSeq(S, k, ops, i + 1, j2)
+LifecycleXSet ==
+  LET d == IF Full THEN 6 ELSE 4 IN
+  { LET q == Weight(p) + Seed
+        s == SetToSuite(q)
+        S == Scn(13000 + (q % 500), s[1], s[2], 1, 5, 9, (q % 2) = 0, 4, TRUE) IN
+    ScriptOf("lifex-" \o Name(p), "lifecycle", S, LifeSeq(S, 700 + (q % 200), p, 1, 1), [mut |-> "none"])
+    : p \in Paths(FALSE, d) }
+
 \* ------------------------------------------- default path: no suites given => discovery, suite 17, else suite 3
 \* served by rules: cipher-suite chunks by list index, then the honest legs of whichever suite the library proposes
 StdRec(id, a, i, c) == <<192, id, a, 64 + i, 128 + c>>
@@ -345,6 +360,7 @@ Scripts == CASE Family = "honest" -> HonestSet \cup NoneSet \cup DefaultSet
              [] Family = "longuser" -> LongUserSet
              [] Family = "rekey" -> RekeySet \cup LongCredSet \cup FleetSet
              [] Family = "lifecycle" -> LifecycleSet
+             [] Family = "lifecyclex" -> LifecycleXSet
              [] Family = "long" -> LongSet
              [] Family = "mutate" -> MutateSet
              [] Family = "triples" -> TripleSet
